@@ -7,6 +7,7 @@ import (
 )
 
 var registry = map[string]func() *check.Property{
+	"C02": C02,
 	"C09": C09,
 	"C12": C12,
 }
